@@ -234,7 +234,8 @@ func runC04(p *Program, r *Report) {
 	checkURLPrefixChains(p, r)
 
 	// ---- R6 conditional names --------------------------------------------------------
-	checkConditionalNames(p, r)
+	checkConditionalNames(p, r, "C04.R6")
+	checkJoinNames(p, r, "C04.R6")
 
 	// ---- R7 forbidden positions --------------------------------------------------------
 	checkForbiddenPositions(p, r, "C04.R7")
@@ -554,12 +555,12 @@ func checkEnums(p *Program, r *Report, pl *Policy) {
 	}
 }
 
-func checkConditionalNames(p *Program, r *Report) {
+func checkConditionalNames(p *Program, r *Report, rule string) {
 	for _, w := range []struct{ fn, callee string }{{"sanitizersForAttributeValue", "sanitizationContextForAttrVal"}, {"sanitizerForElementContent", "sanitizationContextForElementContent"}} {
 		fn := p.Func("template", w.fn)
 		cn := "template." + w.fn
 		if fn == nil {
-			r.Undec("C04.R6", cn, "", "anchor not found")
+			r.Undec(rule, cn, "", "anchor not found")
 			continue
 		}
 		var call *ssa.Call
@@ -573,7 +574,7 @@ func checkConditionalNames(p *Program, r *Report) {
 			}
 		}
 		if call == nil {
-			r.Viol("C04.R6", cn+"#lookup", p.Pos(fn.Pos()), "the context lookup is not called", "")
+			r.Viol(rule, cn+"#lookup", p.Pos(fn.Pos()), "the context lookup is not called", "")
 			continue
 		}
 		inLoop := false
@@ -584,7 +585,63 @@ func checkConditionalNames(p *Program, r *Report) {
 				}
 			}
 		}
-		r.Check(inLoop, "C04.R6", cn+"#all-names", p.Pos(call.Pos()), "the context is looked up for every candidate name (inside the range loops)", "the context lookup is not inside a loop over the candidate names")
+		r.Check(inLoop, rule, cn+"#all-names", p.Pos(call.Pos()), "the context is looked up for every candidate name (inside the range loops)", "the context lookup is not inside a loop over the candidate names")
+		// no iteration may skip the lookup: from the entry of the innermost loop body no back edge is
+		// reachable without passing the block of the lookup (element content: the constant for the
+		// empty name is the only alternative and is handled by the rule below)
+		if inLoop {
+			var header *ssa.BasicBlock
+			for _, b := range fn.Blocks {
+				isHeader := false
+				for _, pr := range b.Preds {
+					if b.Dominates(pr) {
+						isHeader = true
+					}
+				}
+				if isHeader && b.Dominates(call.Block()) && (header == nil || header.Dominates(b)) {
+					header = b
+				}
+			}
+			skipped := ""
+			if header != nil {
+				var body *ssa.BasicBlock
+				for _, su := range header.Succs {
+					if su.Dominates(header) {
+						continue // leaves the loop towards an enclosing header
+					}
+					if su == call.Block() || (header.Dominates(su) && su.Dominates(call.Block())) {
+						body = su
+					}
+				}
+				if body != nil && body != call.Block() {
+					seen := map[*ssa.BasicBlock]bool{call.Block(): true}
+					var walk func(b *ssa.BasicBlock)
+					walk = func(b *ssa.BasicBlock) {
+						if seen[b] || skipped != "" {
+							return
+						}
+						seen[b] = true
+						// an alternative that determines the context without the lookup (constant for the empty element name) is fine
+						for _, su := range b.Succs {
+							if su.Dominates(b) {
+								// back edge reached without the lookup
+								okAlt := false
+								if w.fn == "sanitizerForElementContent" {
+									okAlt = true // sc = HTML for the empty name: compared with sc0 like every other
+								}
+								if !okAlt {
+									skipped = p.Pos(b.Instrs[len(b.Instrs)-1].Pos())
+								}
+								continue
+							}
+							walk(su)
+						}
+					}
+					walk(body)
+				}
+			}
+			r.Check(skipped == "", rule, cn+"#no-iteration-skips-lookup", p.Pos(call.Pos()), "every (element, attribute) candidate goes through the policy lookup", "an iteration over the candidate names can continue without the policy lookup ("+skipped+"): a name chosen by a later branch is never checked against the policy")
+		}
 		// err != nil ⇒ only error returns
 		errOK, cmpOK := false, false
 		onlyErrorReturns := func(start *ssa.BasicBlock) bool {
@@ -662,8 +719,8 @@ func checkConditionalNames(p *Program, r *Report) {
 				}
 			}
 		}
-		r.Check(errOK, "C04.R6", cn+"#lookup-error", p.Pos(call.Pos()), "a lookup error for any candidate name fails the action", "a lookup error for one of the candidate names can be ignored")
-		r.Check(cmpOK, "C04.R6", cn+"#contexts-agree", p.Pos(call.Pos()), "candidate names whose contexts differ fail the action", "contexts of the candidate names are not compared (or a mismatch does not fail)")
+		r.Check(errOK, rule, cn+"#lookup-error", p.Pos(call.Pos()), "a lookup error for any candidate name fails the action", "a lookup error for one of the candidate names can be ignored")
+		r.Check(cmpOK, rule, cn+"#contexts-agree", p.Pos(call.Pos()), "candidate names whose contexts differ fail the action", "contexts of the candidate names are not compared (or a mismatch does not fail)")
 	}
 }
 
